@@ -7,6 +7,7 @@ require (
 	github.com/cilium/hive v1.0.4
 	github.com/cilium/statedb v0.0.0
 	go.yaml.in/yaml/v3 v3.0.4
+	golang.org/x/time v0.15.0
 )
 
 require (
@@ -29,7 +30,6 @@ require (
 	golang.org/x/sys v0.17.0 // indirect
 	golang.org/x/term v0.16.0 // indirect
 	golang.org/x/text v0.14.0 // indirect
-	golang.org/x/time v0.15.0 // indirect
 	golang.org/x/tools v0.17.0 // indirect
 	gopkg.in/ini.v1 v1.67.0 // indirect
 	gopkg.in/yaml.v3 v3.0.1 // indirect
